@@ -131,6 +131,10 @@ type Session struct {
 
 	ops    int64
 	failAt int64 // the failAt-th call (counted from 1 over all methods except NextID) fails
+
+	// Slow, when set (before use), is called at the start of every counted
+	// method with its name: a store that takes its time (disk, network).
+	Slow func(op string)
 }
 
 // NewSession wraps a fresh memory session.
@@ -151,6 +155,9 @@ func (s *Session) FailAt(n int64) {
 func (s *Session) Ops() int64 { return atomic.LoadInt64(&s.ops) }
 
 func (s *Session) hit(op string, dir session.Direction, pkt packet.Generic, id packet.ID) bool {
+	if s.Slow != nil {
+		s.Slow(op)
+	}
 	n := atomic.AddInt64(&s.ops, 1)
 	fail := atomic.LoadInt64(&s.failAt) == n
 	e := memconn.Describe(pkt)
